@@ -16,6 +16,16 @@ class IsScreened:
     |R2 - R1| > sqrt(-(a+b)/(a b) ln eps) with a, b the smallest exponent of each shell (0 < eps < 1)"""
 
     function = "gbasis.integrals.overlap.is_integral_screened"
+    fp = True  # the decision on the unmodified float64 code at sampled inputs (bounded), incl. tight shells with tiny tolerances
+    fp_nsamp = (4, 12)  # (where eps ** (a + b) underflows although the documented cutoff is perfectly representable)
+
+    def fp_shapes(self, tier):
+        return [dict(K=[1, 1]), dict(K=[2, 2]), dict(K=[1, 1], profile="tight"), dict(K=[2, 1], profile="tight")]
+
+    def fp_domain_for(self, shape):
+        if shape.get("profile") == "tight":
+            return {"pos": (20.0, 500.0), "by_prefix": {"eps": (1e-16, 1e-6), "pd": (0.3, 1.5), "qd": (0.3, 1.5)}, "real": 1.2, "zero_prob": 0.0}
+        return {"pos": (0.05, 20.0), "by_prefix": {"eps": (1e-14, 0.5), "pd": (0.3, 1.5), "qd": (0.3, 1.5)}, "real": 3.0, "zero_prob": 0.05}
 
     def shapes(self, tier):
         ks = [(1, 1), (2, 1), (1, 2), (2, 2)] + ([(3, 2), (1, 4)] if tier == "thorough" else [])
